@@ -235,7 +235,7 @@ fn replay(path: &str, supervised: bool) -> i32 {
                 1
             }
             None => {
-                println!("replay of {path}: no violation ({})", o.summary);
+                println!("replay of {path}: no violation ({}; {} seam ticks, {} work ticks, {} chars)", o.summary, o.ticks, o.work, o.n_chars);
                 0
             }
         },
